@@ -10,6 +10,8 @@ CONSTANTS
   MaxNoOffer = 1000000
   MaxTimeouts = 1000000
   EnvAtQuiet = FALSE
+  GenNoFaults = FALSE
+  GenHold = 0
 SPECIFICATION TSpec
 CONSTRAINT Mark
 INVARIANTS TypeOK SlotRange CapacityHonoured ReleasedAtMostOnce ReleasedAtEnd NoEarlyRelease RetNeverBlocks CounterMatches ReportedOK RelayPolicy FullCapacityAgain
